@@ -9,6 +9,7 @@ import (
 	"net/netip"
 	"os"
 	"path/filepath"
+	"sort"
 	"strings"
 	"testing"
 	"time"
@@ -59,6 +60,28 @@ func c14AddLeases(t *testing.T, s *server, from, n, hostLen int, gen uint64) {
 	}
 }
 
+// c14Expected states what dbStore must leave on disk for this server,
+// without going through the file system: the lease table as JSON, sorted by
+// host name (host names are unique here, so the order is determined).
+func c14Expected(t *testing.T, s *server) []byte {
+	leases := []*dbLease{}
+	for _, l := range s.srv4.getLeasesRef() {
+		leases = append(leases, fromLease(l))
+	}
+	sort.SliceStable(leases, func(i, j int) bool { return leases[i].Hostname < leases[j].Hostname })
+	b, err := json.Marshal(&dataLeases{Version: dataVersion, Leases: leases})
+	if err != nil {
+		t.Fatal(err)
+	}
+	return b
+}
+
+// c14Store is one dbStore with the intended content stated first.
+func c14Store(t *testing.T, c *verifc14.Case, label string, srv *server) {
+	c.Want(c14Expected(t, srv))
+	c.Save(label, srv.dbStore)
+}
+
 func TestVerifC14(t *testing.T) {
 	s := verifc14.Start(t, "dhcpd")
 	if s == nil {
@@ -73,29 +96,53 @@ func TestVerifC14(t *testing.T) {
 	db := filepath.Join(dir(), dataFilename)
 	s.Case("first-save", db, nil, []string{"dhcpd", "dst-absent", "tmp-in-dstdir", "bytes"}, func(c *verifc14.Case) {
 		srv := c14Server(t, db, 2, 4, 1)
-		c.Save("dbStore", srv.dbStore)
+		c14Store(t, c, "dbStore", srv)
 	})
 	s.Case("replace", db, nil, []string{"dhcpd", "dst-present", "tmp-in-dstdir", "bytes"}, func(c *verifc14.Case) {
 		srv := c14Server(t, db, 3, 6, 2)
-		c.Save("dbStore", srv.dbStore)
+		c14Store(t, c, "dbStore", srv)
 	})
 	s.TmpShared()
 	s.Case("replace-tmpdir", db, nil, []string{"dhcpd", "dst-present", "tmp-in-tmpdir", "bytes"}, func(c *verifc14.Case) {
 		srv := c14Server(t, db, 1, 6, 3)
-		c.Save("dbStore", srv.dbStore)
+		c14Store(t, c, "dbStore", srv)
 	})
 	s.Case("no-leases", db, nil, []string{"dhcpd", "dst-present", "tmp-in-tmpdir", "bytes", "empty-table"}, func(c *verifc14.Case) {
 		srv := c14Server(t, db, 0, 0, 4)
-		c.Save("dbStore", srv.dbStore)
+		c14Store(t, c, "dbStore", srv)
 	})
 	s.TmpInDstDir()
 	s.Case("successive", db, nil, []string{"dhcpd", "dst-present", "tmp-in-dstdir", "multi-save"}, func(c *verifc14.Case) {
 		srv := c14Server(t, db, 1, 5, 5)
 		for k := 0; k < 6; k++ {
-			c.Save(fmt.Sprintf("dbStore-%d", k), srv.dbStore)
+			c14Store(t, c, fmt.Sprintf("dbStore-%d", k), srv)
 			c14AddLeases(t, srv, 1+k*40, 40, 20+k, 5)
 		}
 	})
+	// two goroutines storing at the same time (in production: the v4 and the v6
+	// server both call onNotify -> dbStore, which takes no lock): interleaved
+	// rename-based saves must still only ever publish complete versions
+	dbc := filepath.Join(dir(), dataFilename)
+	s.Case("concurrent-stores", dbc, nil, []string{"dhcpd", "dst-absent", "tmp-in-dstdir", "bytes"}, func(c *verifc14.Case) {
+		a, b := c14Server(t, dbc, 2, 5, 21), c14Server(t, dbc, 3, 7, 22)
+		for k := 0; k < 4; k++ {
+			c.SaveConcurrent(fmt.Sprintf("pair-%d", k), []verifc14.Job{
+				{Want: c14Expected(t, a), F: a.dbStore}, {Want: c14Expected(t, b), F: b.dbStore},
+			})
+		}
+	})
+	s.TmpShared()
+	s.Case("concurrent-stores-big", db, nil, []string{"dhcpd", "dst-present", "tmp-in-tmpdir"}, func(c *verifc14.Case) {
+		srvs := []*server{c14Server(t, db, 900, 120, 23), c14Server(t, db, 500, 200, 24), c14Server(t, db, 1300, 60, 25)}
+		for k := 0; k < 3; k++ {
+			var jobs []verifc14.Job
+			for _, sv := range srvs {
+				jobs = append(jobs, verifc14.Job{Want: c14Expected(t, sv), F: sv.dbStore})
+			}
+			c.SaveConcurrent(fmt.Sprintf("triple-%d", k), jobs)
+		}
+	})
+	s.TmpInDstDir()
 	// migration of the old leases.db: writeDB(data/leases.json) then the old file is removed
 	{
 		work := s.Dir("mig")
@@ -122,11 +169,11 @@ func TestVerifC14(t *testing.T) {
 		cnt := sz/per + 1
 		s.Case(fmt.Sprintf("size-%d", sz), db, nil, []string{"dhcpd", "tmp-in-dstdir", "multi-save", fmt.Sprintf("size>=%dKiB", sz>>10)}, func(c *verifc14.Case) {
 			srv := c14Server(t, db, cnt, 200, 6)
-			c.Save("dbStore-big", srv.dbStore)
+			c14Store(t, c, "dbStore-big", srv)
 			c.Info["leases"] = cnt
 			srv2 := c14Server(t, db, cnt/2+1, 200, 7)
-			c.Save("dbStore-half", srv2.dbStore)
-			c.Save("dbStore-big-again", srv.dbStore)
+			c14Store(t, c, "dbStore-half", srv2)
+			c14Store(t, c, "dbStore-big-again", srv)
 		})
 	}
 
@@ -156,7 +203,7 @@ func TestVerifC14(t *testing.T) {
 					cnt, hl = r.Intn(s.Scale(3000, 30000)), r.Intn(250)
 				}
 				srv := c14Server(t, db, cnt, hl, uint64(j))
-				c.Save(fmt.Sprintf("dbStore-%d(%d leases)", j, cnt), srv.dbStore)
+				c14Store(t, c, fmt.Sprintf("dbStore-%d(%d leases)", j, cnt), srv)
 			}
 		})
 	}
